@@ -149,8 +149,9 @@ def make_note_el(note, dur, voice, counter, n_of_staves):
 
     if note.articulations:
         articulations = []
-        for articulation in note.articulations:
-            if articulation in ARTICULATIONS:
+        # fixed order, independent of the order in which the articulations are stored
+        for articulation in ARTICULATIONS:
+            if articulation in note.articulations:
                 articulations.append(etree.Element(articulation))
         if articulations:
             articulations_e = etree.Element("articulations")
